@@ -9,14 +9,49 @@
 //!   TI v n dest             fft_into(v, n, dest)   (dest: `len x1 y1 .. xlen ylen`, small integers), then fft(v, n);
 //!                           prints `<dest bits> ; <plain bits>`
 //!   V a b n res             fft(a, n), fft(b, n), pointwise product, fft_inv_into(prod, res)
+//!   V2 a b n res            the same with the user-side product written `fa[i] *= fb[i]` (MulAssign<Complex>)
+//! The executor keeps TWO live objects: the current one (every op above runs on it) and a second one:
+//!   SW                      exchange the two objects
+//!   C                       second = current.clone()
+//!   CF                      second.clone_from(&current)
+//!   X a b n res             fft(a, n), fft(b, n) on the CURRENT object, pointwise product, fft_inv / fft_inv_into
+//!                           on the SECOND object (which may be fresh, smaller than n, a clone, ...)
+//!   X2 a b n res            the same with `*=`
+//! Aliased operands (one allocation `p`, both operands are sub-slices of it):
+//!   MA p i0 i1 j0 j1        multiply(&p[i0..i1], &p[j0..j1])
+//!   MIA p i0 i1 j0 j1 res   multiply_into(&p[i0..i1], &p[j0..j1], res)
+//!   VA p i0 i1 j0 j1 n res  as V on the two sub-slices
 //! Output: one field per op separated by ` | ` (integers in decimal, floats as u64 bit patterns,
 //! `-` for F/U, `P` if the call panicked), then ` | W <bits>*`: the twiddle table of the largest
 //! object of the history (hook verif_tables).
 //!
-//! `E ty la lb mx pattern seed samples` : envelope probe, multiply on a fresh FFT<ty> against the
-//! exact i128 schoolbook convolution on sampled coefficients.  Patterns: 0 all +mx, 1 alternating
+//! `E ty la lb mx pattern seed samples route` : envelope probe on a fresh FFT<ty> against the
+//! exact i128 schoolbook convolution on sampled coefficients AND against a modular evaluation of ALL
+//! coefficients (a(x) b(x) = c(x) at three points modulo 2^61-1).  Patterns: 0 all +mx, 1 alternating
 //! sign in a (b all +mx), 2 alternating sign in both, 3 random sign |coef| = mx, 4 random in [-mx, mx].
-//! Output: `E wrong checked maxerr first_bad_index`.
+//! Routes: 0 multiply; 1 fft, fft, product, fft_inv; 2 multiply_into on a pseudo-random non-zero destination
+//! of length tot / tot+3 / tot-1; 3 fft, fft on one object, product (`*=`), fft_inv_into on a non-zero
+//! destination on a FRESH second object; 4 one object: multiply(big), multiply(prefixes of 1/8 length),
+//! multiply(big) again, all three checked, the first and the third compared; 5 multiply on an object that
+//! was first grown to twice the size needed (stride 2); 6 multiply on a clone of an object that did a
+//! small product first.
+//! Output: `E wrong checked maxerr first_bad_index modfail`.
+//!
+//! `TW ty k pre` : the plan tables of an object grown to 2^k (pre 0: one update_n; 1: update_n(2^(k/2)) first; 2: through a
+//! product of that size): every w[i] against (cos, sin)(2 pi i / 2^k) computed in f64 with the argument reduced to the first
+//! octant, the fixed points w[0] = w[2^k] = (1, 0), and `reversed` against the bit-reversal permutation (exact).
+//! Output: `TW max_abs_deviation fixed_points_ok reversed_ok len_w len_reversed`.
+//!
+//! `PT ty` : prints the crate's published table `rlib_fft::precision`: `PT v1 .. v20 | row1 | .. | row20`.
+//! `P ty ai bi lmode swap sign aback bback route pre seed samples` : probe of the published cell
+//! (VALS[ai], VALS[bi]) -> L = CORRECT_<ty>_BOUNDS[ai][bi], READ FROM THE CRATE.  a in [A-aback ..= A] of length la,
+//! b in [B-bback ..= B] of length lb, (la, lb) by lmode: 0 (L,L) 1 (L-1,L) 2 (L,L-1) 3 (L-2,L) 4 (L-1,L-1)
+//! 5 (L/2+1, L/2+1); swap 1: the call is made with the operands exchanged; sign: 0 non-negative (the
+//! table's claim), 1 alternating, 2 random, 3 all negative; route 0 multiply, 1 multiply_into on a non-zero
+//! destination (length tot or tot+3), 2 fft, fft, product, fft_inv; pre 0 fresh object, 1 after a small
+//! product, 2 after update_n(2n).
+//! Output: `P L la lb wrong checked maxerr first_bad_index modfail`.
+use rlib_fft::precision::{CORRECT_F32_BOUNDS, CORRECT_F64_BOUNDS, VALS_TO_CHECK};
 use rlib_fft::{Complex, FFT};
 use rlib_num_traits::Float;
 use vh::{guarded, p, Sm};
@@ -67,6 +102,7 @@ fn bits(v: &[Complex<f64>]) -> String {
 fn history(t: &[&str]) -> String {
     let mut tk = Tok { t, i: 1 };
     let mut fft = FFT::<f64>::new();
+    let mut aux = FFT::<f64>::new();
     let mut best: Vec<Complex<f64>> = fft.verif_tables().0.to_vec();
     let mut out: Vec<String> = vec![];
     while !tk.done() {
@@ -112,23 +148,60 @@ fn history(t: &[&str]) -> String {
                 })
                 .map(|plain| format!("{} ; {}", bits(&dest), bits(&plain)))
             }
-            "V" => {
-                let a = tk.i32s();
-                let b = tk.i32s();
+            "V" | "V2" | "VA" | "X" | "X2" => {
+                let a: Vec<i32>;
+                let b: Vec<i32>;
+                let pool: Vec<i32>;
+                let (sa, sb): (&[i32], &[i32]) = if op == "VA" {
+                    pool = tk.i32s();
+                    let (i0, i1, j0, j1) = (tk.usize(), tk.usize(), tk.usize(), tk.usize());
+                    (&pool[i0..i1], &pool[j0..j1])
+                } else {
+                    a = tk.i32s();
+                    b = tk.i32s();
+                    (&a, &b)
+                };
                 let n = tk.usize();
                 let mut res = tk.i64s();
+                let assign = op == "V2" || op == "X2";
+                let second = op == "X" || op == "X2";
                 guarded(|| {
-                    let fa = fft.fft(&a, n);
-                    let fb = fft.fft(&b, n);
-                    let prod = fa.into_iter().zip(fb).map(|(x, y)| x * y).collect::<Vec<_>>();
+                    let mut fa = fft.fft(sa, n);
+                    let fb = fft.fft(sb, n);
+                    let prod = if assign {
+                        for (x, y) in fa.iter_mut().zip(fb.iter()) {
+                            *x *= *y;
+                        }
+                        fa
+                    } else {
+                        fa.into_iter().zip(fb).map(|(x, y)| x * y).collect::<Vec<_>>()
+                    };
+                    let inv = if second { &mut aux } else { &mut fft };
                     if res.len() == prod.len() && res.iter().all(|x| *x == 0) {
                         // an all-zero destination of full length: the allocating variant must give the same
-                        res = fft.fft_inv(&prod);
+                        res = inv.fft_inv(&prod);
                     } else {
-                        fft.fft_inv_into(&prod, &mut res);
+                        inv.fft_inv_into(&prod, &mut res);
                     }
                 })
                 .map(|_| ints(&res))
+            }
+            "SW" => {
+                std::mem::swap(&mut fft, &mut aux);
+                Some("-".to_string())
+            }
+            "C" => guarded(|| aux = fft.clone()).map(|_| "-".to_string()),
+            "CF" => guarded(|| aux.clone_from(&fft)).map(|_| "-".to_string()),
+            "MA" => {
+                let pool = tk.i32s();
+                let (i0, i1, j0, j1) = (tk.usize(), tk.usize(), tk.usize(), tk.usize());
+                guarded(|| fft.multiply(&pool[i0..i1], &pool[j0..j1])).map(|c| ints(&c))
+            }
+            "MIA" => {
+                let pool = tk.i32s();
+                let (i0, i1, j0, j1) = (tk.usize(), tk.usize(), tk.usize(), tk.usize());
+                let mut res = tk.i64s();
+                guarded(|| fft.multiply_into(&pool[i0..i1], &pool[j0..j1], &mut res)).map(|_| ints(&res))
             }
             other => {
                 eprintln!("harness: unknown op {}", other);
@@ -136,9 +209,11 @@ fn history(t: &[&str]) -> String {
             }
         };
         out.push(r.unwrap_or_else(|| "P".to_string()));
-        let w = fft.verif_tables().0;
-        if w.len() > best.len() {
-            best = w.to_vec();
+        for o in [&fft, &aux] {
+            let w = o.verif_tables().0;
+            if w.len() > best.len() {
+                best = w.to_vec();
+            }
         }
     }
     out.push(format!("W {}", bits(&best)));
@@ -155,6 +230,156 @@ fn exact_coef(a: &[i32], b: &[i32], k: usize) -> i128 {
     s
 }
 
+const MP: u128 = (1u128 << 61) - 1;
+fn mred(x: i128) -> u128 {
+    x.rem_euclid(MP as i128) as u128
+}
+/// value of the polynomial with coefficients `it` (lowest first) at `x`, modulo 2^61-1
+fn meval<I: DoubleEndedIterator<Item = i128>>(it: I, x: u128) -> u128 {
+    let mut r: u128 = 0;
+    for v in it.rev() {
+        r = (r * x + mred(v)) % MP;
+    }
+    r
+}
+
+/// `c` (after subtracting `base`, the previous contents of the destination) against the exact product:
+/// sampled coefficients by i128 schoolbook, ALL coefficients by evaluation at three points modulo 2^61-1.
+/// `c` may be longer than the product: the excess must equal `base` there (resp. 0).
+/// Returns (wrong, checked, maxerr, first_bad, modfail).
+fn check_product(a: &[i32], b: &[i32], c: &[i64], base: &[i64], samples: usize, rng: &mut Sm) -> (usize, usize, i128, i64, u32) {
+    let (la, lb) = (a.len(), b.len());
+    let total = la + lb - 1;
+    let basev = |k: usize| -> i64 { if k < base.len() { base[k] } else { 0 } };
+    let upto = total.min(c.len());
+    let mut idx: Vec<usize> = vec![];
+    if upto <= samples {
+        idx.extend(0..upto);
+    } else {
+        idx.extend([0, upto - 1, upto / 2, la.min(lb) - 1, (la.max(lb) - 1).min(upto - 1), la.min(lb).min(upto - 1), 1.min(upto - 1)]);
+        while idx.len() < samples {
+            idx.push((rng.next() % upto as u64) as usize);
+        }
+    }
+    // one operand constant: the exact product is a sliding-window sum, so EVERY coefficient is compared exactly
+    if let Some(exact) = exact_if_constant(a, b) {
+        idx.clear();
+        idx.extend(0..upto);
+        let (mut wrong, mut maxerr, mut first) = (0usize, 0i128, -1i64);
+        for k in 0..c.len() {
+            let e = if k < total { exact[k] } else { 0 };
+            let d = (c[k] as i128 - basev(k) as i128 - e).abs();
+            if d != 0 {
+                wrong += 1;
+                if first < 0 {
+                    first = k as i64;
+                }
+                maxerr = maxerr.max(d);
+            }
+        }
+        return (wrong, c.len(), maxerr, first, if wrong > 0 && c.len() >= total { 1 } else { 0 });
+    }
+    let (mut wrong, mut maxerr, mut first) = (0usize, 0i128, -1i64);
+    for &k in idx.iter() {
+        let e = exact_coef(a, b, k);
+        let d = (c[k] as i128 - basev(k) as i128 - e).abs();
+        if d != 0 {
+            wrong += 1;
+            if first < 0 {
+                first = k as i64;
+            }
+            maxerr = maxerr.max(d);
+        }
+    }
+    let mut checked = idx.len();
+    // cells beyond the product keep their previous contents
+    for k in total..c.len() {
+        checked += 1;
+        if c[k] != basev(k) {
+            wrong += 1;
+            if first < 0 {
+                first = k as i64;
+            }
+            maxerr = maxerr.max((c[k] as i128 - basev(k) as i128).abs());
+        }
+    }
+    let mut modfail = 0u32;
+    if c.len() >= total {
+        for _ in 0..3 {
+            let x = (rng.next() as u128) % MP;
+            let va = meval(a.iter().map(|&v| v as i128), x);
+            let vb = meval(b.iter().map(|&v| v as i128), x);
+            let vc = meval((0..total).map(|k| c[k] as i128 - basev(k) as i128), x);
+            if (va * vb) % MP != vc {
+                modfail = 1;
+            }
+        }
+    }
+    (wrong, checked, maxerr, first, modfail)
+}
+
+/// exact product when `a` or `b` is a constant vector: c[k] = const * (sum of the other operand over a window)
+fn exact_if_constant(a: &[i32], b: &[i32]) -> Option<Vec<i128>> {
+    let (cst, other) = if a.iter().all(|&x| x == a[0]) {
+        (a, b)
+    } else if b.iter().all(|&x| x == b[0]) {
+        (b, a)
+    } else {
+        return None;
+    };
+    let (lc, lo) = (cst.len(), other.len());
+    let v = cst[0] as i128;
+    let mut out = Vec::with_capacity(lc + lo - 1);
+    let mut s: i128 = 0;
+    for k in 0..lc + lo - 1 {
+        if k < lo {
+            s += other[k] as i128;
+        }
+        if k >= lc {
+            s -= other[k - lc] as i128;
+        }
+        out.push(v * s);
+    }
+    Some(out)
+}
+
+fn pseudo_dest(rng: &mut Sm, len: usize) -> Vec<i64> {
+    (0..len).map(|_| if rng.next() % 4 == 0 { 0 } else { (rng.next() % 2_000_001) as i64 - 1_000_000 }).collect()
+}
+
+fn fft_route<F: Float>(fwd: &mut FFT<F>, inv: Option<&mut FFT<F>>, a: &[i32], b: &[i32], assign: bool, dest: Option<Vec<i64>>) -> Vec<i64> {
+    let total = a.len() + b.len() - 1;
+    let n = total.next_power_of_two();
+    let mut fa = fwd.fft(a, n);
+    let fb = fwd.fft(b, n);
+    let prod = if assign {
+        for (x, y) in fa.iter_mut().zip(fb.iter()) {
+            *x *= *y;
+        }
+        fa
+    } else {
+        fa.into_iter().zip(fb).map(|(x, y)| x * y).collect::<Vec<_>>()
+    };
+    let inv = match inv {
+        Some(o) => o,
+        None => fwd,
+    };
+    match dest {
+        Some(mut d) => {
+            inv.fft_inv_into(&prod, &mut d);
+            d
+        }
+        None => inv.fft_inv(&prod),
+    }
+}
+
+fn fmt_check(tag: &str, r: (usize, usize, i128, i64, u32)) -> String {
+    format!("{} {} {} {} {} {}", tag, r.0, r.1, r.2, r.3, r.4)
+}
+fn merge(x: (usize, usize, i128, i64, u32), y: (usize, usize, i128, i64, u32)) -> (usize, usize, i128, i64, u32) {
+    (x.0 + y.0, x.1 + y.1, x.2.max(y.2), if x.3 >= 0 { x.3 } else { y.3 }, x.4 | y.4)
+}
+
 fn envelope<F: Float>(t: &[&str]) -> String {
     let la: usize = p(t[2]);
     let lb: usize = p(t[3]);
@@ -162,7 +387,6 @@ fn envelope<F: Float>(t: &[&str]) -> String {
     let pat: u32 = p(t[5]);
     let seed: u64 = p(t[6]);
     let samples: usize = p(t[7]);
-    // route 0: multiply; route 1: fft(a), fft(b), pointwise product, fft_inv (the property promises the same coefficients)
     let route: u32 = if t.len() > 8 { p(t[8]) } else { 0 };
     let mut rng = Sm(seed);
     let mut gen = |len: usize, which: u32| -> Vec<i32> {
@@ -198,55 +422,260 @@ fn envelope<F: Float>(t: &[&str]) -> String {
     let b = gen(lb, 1);
     let mut fft = FFT::<F>::new();
     let total = la + lb - 1;
-    let c = if route == 1 {
-        let n = total.next_power_of_two();
-        let fa = fft.fft(&a, n);
-        let fb = fft.fft(&b, n);
-        let prod = fa.into_iter().zip(fb).map(|(x, y)| x * y).collect::<Vec<_>>();
-        let mut r = fft.fft_inv(&prod);
-        r.truncate(total);
-        r
-    } else {
-        fft.multiply(&a, &b)
-    };
-    if c.len() != total {
-        return format!("E {} {} -1 0", total, total);
-    }
-    let mut idx: Vec<usize> = vec![];
-    if total <= samples {
-        idx.extend(0..total);
-    } else {
-        idx.extend([0, total - 1, total / 2, la.min(lb) - 1, la.max(lb) - 1, la.min(lb).min(total - 1), 1.min(total - 1)]);
-        while idx.len() < samples {
-            idx.push((rng.next() % total as u64) as usize);
-        }
-    }
-    let (mut wrong, mut maxerr, mut first) = (0usize, 0i128, -1i64);
-    for &k in idx.iter() {
-        let e = exact_coef(&a, &b, k);
-        let d = (c[k] as i128 - e).abs();
-        if d != 0 {
-            wrong += 1;
-            if first < 0 {
-                first = k as i64;
+    let n = total.next_power_of_two();
+    match route {
+        1 => {
+            let r = fft_route(&mut fft, None, &a, &b, false, None);
+            if r.len() != n {
+                return format!("E {} {} -1 0 1", total, total);
             }
-            maxerr = maxerr.max(d);
+            fmt_check("E", check_product(&a, &b, &r, &[], samples, &mut rng))
+        }
+        2 => {
+            let dl = match seed % 3 {
+                0 => total,
+                1 => total + 3,
+                _ => total.max(2) - 1,
+            };
+            let base = pseudo_dest(&mut rng, dl);
+            let mut c = base.clone();
+            fft.multiply_into(&a, &b, &mut c);
+            fmt_check("E", check_product(&a, &b, &c, &base, samples, &mut rng))
+        }
+        3 => {
+            let mut other = FFT::<F>::new();
+            let base = pseudo_dest(&mut rng, if seed % 2 == 0 { n } else { total });
+            let c = fft_route(&mut fft, Some(&mut other), &a, &b, true, Some(base.clone()));
+            fmt_check("E", check_product(&a, &b, &c, &base, samples, &mut rng))
+        }
+        4 => {
+            let c1 = fft.multiply(&a, &b);
+            let (sa, sb) = (&a[..la / 8 + 1], &b[..lb / 8 + 1]);
+            let c2 = fft.multiply(sa, sb);
+            let c3 = fft.multiply(&a, &b);
+            if c1.len() != total || c2.len() != sa.len() + sb.len() - 1 || c1 != c3 {
+                return format!("E {} {} -1 0 1", total, total);
+            }
+            let r1 = check_product(&a, &b, &c1, &[], samples, &mut rng);
+            let r2 = check_product(sa, sb, &c2, &[], samples, &mut rng);
+            fmt_check("E", merge(r1, r2))
+        }
+        _ => {
+            if route == 5 {
+                fft.update_n(2 * n.max(2));
+            }
+            if route == 6 {
+                let small = fft.multiply(&[1, -2, 3], &[4, 5]);
+                if small != vec![4, -3, 2, 15] {
+                    return format!("E {} {} -1 0 1", total, total);
+                }
+                let orig = fft;
+                fft = orig.clone();
+                drop(orig);
+            }
+            let c = fft.multiply(&a, &b);
+            if c.len() != total {
+                return format!("E {} {} -1 0 1", total, total);
+            }
+            fmt_check("E", check_product(&a, &b, &c, &[], samples, &mut rng))
         }
     }
-    format!("E {} {} {} {}", wrong, idx.len(), maxerr, first)
+}
+
+fn bounds_for(ty: &str) -> &'static [[f64; VALS_TO_CHECK.len()]; VALS_TO_CHECK.len()] {
+    match ty {
+        "f64" => &CORRECT_F64_BOUNDS,
+        "f32" => &CORRECT_F32_BOUNDS,
+        other => {
+            eprintln!("harness: unknown float type {}", other);
+            std::process::exit(3)
+        }
+    }
+}
+
+fn print_table(t: &[&str]) -> String {
+    let bounds = bounds_for(t[1]);
+    let mut out = vec![format!("PT {}", VALS_TO_CHECK.iter().map(|v| v.to_string()).collect::<Vec<_>>().join(" "))];
+    for row in bounds.iter() {
+        out.push(row.iter().map(|v| (*v as usize).to_string()).collect::<Vec<_>>().join(" "));
+    }
+    out.join(" | ")
+}
+
+fn published<F: Float>(t: &[&str]) -> String {
+    let bounds = bounds_for(t[1]);
+    let ai: usize = p(t[2]);
+    let bi: usize = p(t[3]);
+    let lmode: u32 = p(t[4]);
+    let swap: u32 = p(t[5]);
+    let sign: u32 = p(t[6]);
+    let aback: i32 = p(t[7]);
+    let bback: i32 = p(t[8]);
+    let route: u32 = p(t[9]);
+    let pre: u32 = p(t[10]);
+    let seed: u64 = p(t[11]);
+    let samples: usize = p(t[12]);
+    let l = bounds[ai][bi] as usize;
+    let (amax, bmax) = (VALS_TO_CHECK[ai], VALS_TO_CHECK[bi]);
+    let (la, lb) = match lmode {
+        0 => (l, l),
+        1 => (l.saturating_sub(1), l),
+        2 => (l, l.saturating_sub(1)),
+        3 => (l.saturating_sub(2), l),
+        4 => (l.saturating_sub(1), l.saturating_sub(1)),
+        _ => (l / 2 + 1, l / 2 + 1),
+    };
+    if l == 0 || la == 0 || lb == 0 {
+        return "P 0 0 0 0 0 0 -1 0".to_string();
+    }
+    let mut rng = Sm(seed);
+    let mut gen = |len: usize, mx: i32, back: i32| -> Vec<i32> {
+        let lo = (mx - back).max(0);
+        (0..len)
+            .map(|i| {
+                let v = lo + (rng.next() % ((mx - lo) as u64 + 1)) as i32;
+                match sign {
+                    0 => v,
+                    1 => {
+                        if i % 2 == 1 {
+                            -v
+                        } else {
+                            v
+                        }
+                    }
+                    2 => {
+                        if rng.next() & 1 == 1 {
+                            -v
+                        } else {
+                            v
+                        }
+                    }
+                    _ => -v,
+                }
+            })
+            .collect()
+    };
+    let a = gen(la, amax, aback);
+    let b = gen(lb, bmax, bback);
+    let (x, y): (&[i32], &[i32]) = if swap == 1 { (&b, &a) } else { (&a, &b) };
+    let total = la + lb - 1;
+    let n = total.next_power_of_two().max(2);
+    let mut fft = FFT::<F>::new();
+    if pre == 1 {
+        let small = fft.multiply(&[1, -2, 3], &[4, 5]);
+        if small != vec![4, -3, 2, 15] {
+            return format!("P {} {} {} {} {} -1 0 1", l, la, lb, total, total);
+        }
+    } else if pre == 2 {
+        fft.update_n(2 * n);
+    }
+    let r = match route {
+        1 => {
+            let base = pseudo_dest(&mut rng, if seed % 2 == 0 { total } else { total + 3 });
+            let mut c = base.clone();
+            fft.multiply_into(x, y, &mut c);
+            check_product(x, y, &c, &base, samples, &mut rng)
+        }
+        2 => {
+            let c = fft_route(&mut fft, None, x, y, false, None);
+            check_product(x, y, &c, &[], samples, &mut rng)
+        }
+        _ => {
+            let c = fft.multiply(x, y);
+            if c.len() != total {
+                return format!("P {} {} {} {} {} -1 0 1", l, la, lb, total, total);
+            }
+            check_product(x, y, &c, &[], samples, &mut rng)
+        }
+    };
+    format!("P {} {} {} {} {} {} {} {}", l, la, lb, r.0, r.1, r.2, r.3, r.4)
+}
+
+/// (cos, sin)(2 pi i / n) with the argument reduced exactly (integers) to [0, pi/4]
+fn unit(i: usize, n: usize) -> (f64, f64) {
+    let i = i % n;
+    let (q, r) = (8 * i / n, 8 * i % n); // octant q, remainder r/n of an octant: angle = (q + r/n) * pi/4
+    let fr = r as f64 / n as f64;
+    let (k, t) = if q % 2 == 0 { (q / 2, fr) } else { (q / 2 + 1, fr - 1.0) }; // angle = k * pi/2 + t * pi/4, |t| <= 1
+    let x = t * std::f64::consts::FRAC_PI_4;
+    let (c, s) = (x.cos(), x.sin());
+    match k % 4 {
+        0 => (c, s),
+        1 => (-s, c),
+        2 => (-c, -s),
+        _ => (s, -c),
+    }
+}
+
+trait AsF64 {
+    fn to_f64(&self) -> f64;
+}
+impl AsF64 for f64 {
+    fn to_f64(&self) -> f64 {
+        *self
+    }
+}
+impl AsF64 for f32 {
+    fn to_f64(&self) -> f64 {
+        *self as f64
+    }
+}
+
+fn tables<F: Float + AsF64>(t: &[&str]) -> String {
+    let k: u32 = p(t[2]);
+    let pre: u32 = p(t[3]);
+    let n = 1usize << k;
+    let mut fft = FFT::<F>::new();
+    match pre {
+        1 => {
+            fft.update_n(1usize << (k / 2));
+            fft.update_n(n);
+        }
+        2 => {
+            let a = vec![1i32; n / 2];
+            let _ = fft.multiply(&a, &a);
+            fft.update_n(n);
+        }
+        _ => fft.update_n(n),
+    }
+    let (w, rev) = fft.verif_tables();
+    let m = rev.len();
+    let mut dev = 0f64;
+    if w.len() == m + 1 {
+        for i in 0..=m {
+            let (c, s) = unit(i, m);
+            dev = dev.max((w[i].x.to_f64() - c).abs()).max((w[i].y.to_f64() - s).abs());
+        }
+    } else {
+        dev = f64::INFINITY;
+    }
+    let one = |c: &Complex<F>| c.x.to_f64() == 1.0 && c.y.to_f64() == 0.0;
+    let fixed = w.len() == m + 1 && one(&w[0]) && one(&w[m]);
+    let bits = m.trailing_zeros();
+    let rev_ok = m.is_power_of_two()
+        && m >= n.max(4)
+        && rev.iter().enumerate().all(|(i, &r)| if bits == 0 { r == 0 } else { r == i.reverse_bits() >> (usize::BITS - bits) });
+    format!("TW {:e} {} {} {} {}", dev, fixed as u8, rev_ok as u8, w.len(), m)
+}
+
+fn by_type(t: &[&str], f64f: fn(&[&str]) -> String, f32f: fn(&[&str]) -> String) -> String {
+    match t[1] {
+        "f64" => f64f(t),
+        "f32" => f32f(t),
+        other => {
+            eprintln!("harness: unknown float type {}", other);
+            std::process::exit(3)
+        }
+    }
 }
 
 fn main() {
     vh::serve(|t| match t[0] {
         "H" => history(t),
-        "E" => match t[1] {
-            "f64" => envelope::<f64>(t),
-            "f32" => envelope::<f32>(t),
-            other => {
-                eprintln!("harness: unknown float type {}", other);
-                std::process::exit(3)
-            }
-        },
+        "E" => by_type(t, envelope::<f64>, envelope::<f32>),
+        "P" => by_type(t, published::<f64>, published::<f32>),
+        "PT" => print_table(t),
+        "TW" => by_type(t, tables::<f64>, tables::<f32>),
         other => {
             eprintln!("harness: unknown mode {}", other);
             std::process::exit(3)
